@@ -44,6 +44,9 @@ TOKENS = [
     (b"Authorization", b"secret"),
     (b" x-ws ", b" v "), (b"x-tab", b"\tv\t"), (b"X-Upper", b"V"), (b"x-empty", b""), (b"x-a", b"1"),
     (b"content-type", b"text/plain"), (b":Method", b"GET"),
+    # fields that only become sensitive / comparable once they are normalised, and empty values of the two fields that must agree
+    (b"authorization ", b"secret"), (b" Proxy-Authorization", b"s"), (b" cookie", b"sid=1"), (b"cookie", b"  " + b"a" * 17 + b"  "),
+    (b"host", b""), (b":authority", b""), (b"Host", b"   "),
 ]
 SMALL_TOKENS = [t for i, t in enumerate(TOKENS) if i in (0, 3, 4, 5, 7, 8, 9, 11, 14, 21, 22, 24, 26, 29, 31, 33)]
 BASES = {
@@ -54,8 +57,8 @@ BASES = {
     "trailers": [(b"x-a", b"1"), (b"content-type", b"text/plain")],
 }
 ALPHABET = "tokens: %s; forms: bytes tuples, str tuples, HeaderTuple, NeverIndexedHeaderTuple" % (TOKENS,)
-BOUNDS = {"quick": "edit distance <= 2 over 36 tokens (default configuration) and over 16 tokens (other three configurations); forms on distance <= 1",
-          "thorough": "edit distance <= 2 over 36 tokens in all four configurations; edit distance 3 over 16 tokens in the default configuration"}
+BOUNDS = {"quick": "edit distance <= 2 over 43 tokens (default configuration) and over 16 tokens (other three configurations); forms on distance <= 1",
+          "thorough": "edit distance <= 2 over 43 tokens in all four configurations; edit distance 3 over 16 tokens in the default configuration"}
 CFGS = [(True, True), (True, False), (False, True), (False, False)]   # (normalize, validate)
 
 
